@@ -4,6 +4,7 @@ import (
 	"bytes"
 	"encoding/json"
 	"fmt"
+	"math"
 	"strconv"
 	"time"
 
@@ -154,12 +155,15 @@ func str(o any) string {
 }
 
 func unixTime(o any) string {
-	if o == nil {
-		return ""
-	}
-	if s, ok := o.(string); ok {
-		if i, err := strconv.Atoi(s); err == nil {
+	switch v := o.(type) {
+	case string:
+		if i, err := strconv.Atoi(v); err == nil {
 			return time.Unix(int64(i), 0).UTC().Format("2006-01-02 15:04:05")
+		}
+	case float64:
+		// RFC 7519 NumericDate: a JSON number of seconds since the epoch, possibly with a fraction
+		if sec := math.Floor(v); math.Abs(sec) < 1<<53 {
+			return time.Unix(int64(sec), 0).UTC().Format("2006-01-02 15:04:05")
 		}
 	}
 	return ""
